@@ -75,6 +75,27 @@ func TestExplore(t *testing.T) {
 		st.Nodes += len(tab.Nodes)
 		st.Edges += ne
 	}
+	// the allocator over the scripted store with remote changes, restarts and failing writes (also C12)
+	for _, ps := range []*PersistSystem{NewPersistSystem(G4_29, "lease", 1, nsubs), NewPersistSystem(G4_30, "session", 0, nsubs)} {
+		d, mn := 4, 2500
+		if tier == "thorough" {
+			d, mn = 6, 25000
+		}
+		tab, panics, err := core.Explore(ps, core.ExploreOptions{MaxDepth: d, MaxNodes: mn, AdequacySample: 3, Seed: seed})
+		if err != nil {
+			t.Fatalf("explore %s: %v", ps.Name(), err)
+		}
+		st.Panics = append(st.Panics, panics...)
+		bundle.Systems = append(bundle.Systems, tab)
+		ne := 0
+		for _, es := range tab.Edges {
+			ne += len(es)
+		}
+		st.PerSystem[ps.Name()] = [3]int{len(tab.Nodes), ne, 0}
+		st.Systems++
+		st.Nodes += len(tab.Nodes)
+		st.Edges += ne
+	}
 	// two gateways sharing one store (cross-node uniqueness)
 	for _, tn := range twoNodeSystems() {
 		d, mn := 5, 3000
@@ -212,6 +233,7 @@ func twoNodeSystems() []*TwoNodeSystem {
 func persistSystems(nsubs int) []*PersistSystem {
 	return []*PersistSystem{
 		NewPersistSystem(G4_29, "session", 0, nsubs),
+		NewPersistSystem(G4_30, "session", 0, nsubs),
 		NewPersistSystem(G6_61, "session", 0, nsubs),
 		NewPersistSystem(G4_28_30, "session", 0, nsubs),
 		NewPersistSystem(G4_29, "lease", 1, nsubs),
